@@ -8,6 +8,7 @@ def Ev.unit : Ev → UnitId
   | .create u _ | .push _ u | .pop _ _ u | .setSt u _ | .run _ u | .userStart u | .userEnd u | .cb _ u _
   | .incB u _ | .decB u _ | .resume u | .finish _ u | .terminate u | .free u | .reqSet u _ | .reqClr u _
   | .migrate u _ | .joinRet _ u => u
+  | .xferB _ t => t
 
 /-- frame: an event changes the location / state / pool / counters of its own unit only -/
 theorem frame (s s' : St) (e : Ev) (hs : step s e = some s') (v : UnitId) (hv : v ≠ e.unit) :
@@ -15,7 +16,7 @@ theorem frame (s s' : St) (e : Ev) (hs : step s e = some s') (v : UnitId) (hv : 
     s'.resumed v = s.resumed v := by
   cases e <;> simp only [Ev.unit] at hv <;>
     simp only [step, stepCreate, stepPush, stepPop, stepSetSt, stepRun, stepUserStart, stepUserEnd, stepCb, stepIncB,
-      stepDecB, stepResume, stepFinish, stepTerminate, stepFree, stepReqSet, stepReqClr, stepMigrate, stepJoinRet] at hs <;>
+      stepDecB, stepResume, stepFinish, stepTerminate, stepFree, stepReqSet, stepReqClr, stepMigrate, stepJoinRet, stepXferB] at hs <;>
     (repeat' (split at hs)) <;> (try cases hs) <;> simp_all [setLoc, upd]
 
 end ArgoVerif.Model.Sched
